@@ -4,6 +4,9 @@ CONSTANTS
   MaxK = 1
   Cap = 3
   CloseOn = "wg"
+  CtxGen = FALSE
+  ContinueOnCtx = FALSE
+  LoopChecksCtx = TRUE
 INVARIANTS TypeOK Conservation CloseAfterDrain EofComplete NoStall AllDone BlockedConsumerReleased NoopCloseStartsNothing
 PROPERTIES Settles LiveTerminates
 CHECK_DEADLOCK FALSE
